@@ -177,9 +177,9 @@ type Plan struct {
 	Schedule []int       `json:"schedule,omitempty"`
 	// UseSchedule makes a concurrent run replay Schedule (also when it is
 	// empty) instead of drawing scheduling choices from the run's PRNG.
-	UseSchedule bool `json:"use_schedule,omitempty"`
-	Extra    Extra       `json:"extra,omitempty"`
-	Expect   *Expect     `json:"expect,omitempty"`
+	UseSchedule bool    `json:"use_schedule,omitempty"`
+	Extra       Extra   `json:"extra,omitempty"`
+	Expect      *Expect `json:"expect,omitempty"`
 }
 
 // Extra carries engine-specific literal data.
